@@ -58,6 +58,7 @@ type sys struct {
 	latMax       float64
 	ogc          bool
 	unitFirst    bool
+	pretty       bool
 }
 
 var F = crsgen.F
@@ -176,7 +177,43 @@ func genSys(r *crsgen.R) *sys {
 			s.latMin, s.latMax = -85, -5
 		}
 	}
+	if r.Chance(0.25) && s.name != "longlat" {
+		// the multi-line layout GDAL and many .prj writers produce: every nested section on its
+		// own indented line (scalar values stay on the line of their keyword)
+		s.wkt = prettyWKT(s.wkt)
+		s.pretty = true
+	}
 	return s
+}
+
+// prettyWKT puts every section that follows a comma on a new, indented line.
+func prettyWKT(w string) string {
+	var b strings.Builder
+	depth := 0
+	for i := 0; i < len(w); i++ {
+		ch := w[i]
+		switch ch {
+		case '[':
+			depth++
+			b.WriteByte(ch)
+		case ']':
+			depth--
+			b.WriteByte(ch)
+		case ',':
+			b.WriteByte(ch)
+			// a keyword follows (an upper-case letter, then letters/underscores up to '[')?
+			j := i + 1
+			for j < len(w) && (w[j] >= 'A' && w[j] <= 'Z' || w[j] == '_' || w[j] >= '0' && w[j] <= '9') {
+				j++
+			}
+			if j > i+1 && j < len(w) && w[j] == '[' {
+				b.WriteString("\n" + strings.Repeat("    ", depth))
+			}
+		default:
+			b.WriteByte(ch)
+		}
+	}
+	return b.String()
 }
 
 type res struct {
@@ -236,6 +273,9 @@ func runSpelling(c *core.Ctx) {
 	c.Count("spelling." + spelling)
 	if s.unitFirst {
 		c.Count("section_order.unit_before_parameters")
+	}
+	if s.pretty {
+		c.Count("layout.multi_line")
 	}
 	switch s.towgs {
 	case 0:
